@@ -291,7 +291,14 @@ impl ChannelDropBehaviour {
                         via.prev_hop().unwrap().name(),
                         msg,
                     );
-                    buffer.enqueue(msg, via);
+                    // Do not keep a handle to this channel inside its own buffer.
+                    buffer.enqueue(
+                        msg,
+                        Connection {
+                            channel: None,
+                            ..via
+                        },
+                    );
                 }
             }
         }
